@@ -32,6 +32,8 @@ TEXT = {
          "The specification evaluates every setting of every world (String, typed read, Has, whole Unpack) with the fixed lookup order and operator table; the harness renders each world to real ${} strings, Env configs and Resolve callbacks and compares text, type and error class (cyclic/missing/custom message); the same worlds are rebuilt by two Merge calls in both orders to decide late binding."),
  "C08": ("varexp", "TLA+ small-step evaluator (UcfgVarExpSteps) checked by TLC for termination under weak fairness + stack bound over all reference graphs; big-step NoFalseCycle invariant; replay of all worlds through Unpack/getters/Has/CountField/Child/FlattenedKeys/CompareConfigs in crash-isolated child processes",
          "Liveness <>(stack = <<>>) and the stack bound hold for every graph of the universe on the Ideal layer and TLC refutes the listed deviation with the one-setting witness; on the code every world's reads run in child processes (4 MB stack, deadline) so 'did not return' is an observation; cyclic errors must appear exactly where the specification says a name is re-entered."),
+ "C03": ("conv", "TLA+ decision table for numeric conversions over abstract boundary numbers (UcfgConvert): TLC checks 'no third outcome'; exhaustive replay at every type boundary through five routes with math/big exactness; random bit patterns trace-validated",
+         "The table (negative check on the original value, truncation toward zero, range check on the truncated value, NaN/Inf never into integers or durations, seconds*1e9 must fit int64, text must parse) is checked by TLC to yield only Err or the exact value and to be violated by the two repaired deviations; every (source kind, boundary point, target) is executed on the code and the stored value compared with the exact rational; 20k-500k random values are classified by the driver and validated by TLC."),
 }
 NOTE = "bounded universes (stated in evidence.rule); projection through the public API; TLC/JVM/Go runtime trusted; Ideal layer + named deviations listed in known_findings.json"
 
@@ -45,6 +47,8 @@ m = dict(
                source_commits=[], add_only=True),
     
     engines=[
+        dict(name="conv", path="spec/UcfgConvert.tla", serves_properties=["C03"],
+             kind_free_text="TLA+ decision table over named numeric boundaries; Gen_Convert/Trace_Convert; harness/cmd/ucfgconf/fam_conv.go (math/big concretisation)"),
         dict(name="varexp", path="spec/UcfgVarExp.tla", serves_properties=["C02", "C08", "C11"],
              kind_free_text="TLA+ big-step evaluator of variable expansion + small-step UcfgVarExpSteps (liveness); Gen_VarExp; harness/cmd/ucfgconf/fam_varexp.go with crash-isolated child processes (isolate.go)"),
         dict(name="flags", path="spec/UcfgFlags.tla", serves_properties=["C19"],
